@@ -4,6 +4,10 @@ import (
 	"fmt"
 	"io"
 	"math/bits"
+	"os"
+	"sort"
+	"strconv"
+	"sync"
 	"strings"
 
 	"verif/mc"
@@ -28,6 +32,7 @@ type config struct {
 	truncs             []int
 	faultOps           []string
 	ballast            bool // pre-allocate most of the device so that the next allocations cross a bitmap word
+	preopen            []int // sizes of the files that exist in the initial state (one per slot), saves depth
 	depth              map[string]int
 }
 
@@ -234,9 +239,10 @@ func (s *sys) doNewFile(c *mc.SeqCtx, slot, size int) {
 	var hs rpool.HoleSource = rpool.ZeroHoleSource
 	var phs *patternHS
 	if s.cfg.pattern {
-		phs = &patternHS{fl: s.fl, vals: make([]byte, size), data: make([]bool, size), cur: size}
+		hsSize := size + debugHSExtra
+		phs = &patternHS{fl: s.fl, vals: make([]byte, hsSize), data: make([]bool, hsSize), cur: hsSize}
 		var dataOffs []int
-		for o := 0; o < size; o++ {
+		for o := 0; o < hsSize; o++ {
 			if patternLayout[o%len(patternLayout)] == 'D' {
 				phs.data[o] = true
 				dataOffs = append(dataOffs, o)
@@ -254,6 +260,7 @@ func (s *sys) doNewFile(c *mc.SeqCtx, slot, size int) {
 	fired := s.fl.fired != fired0
 	c.Logf("  NewFile -> err=%v", err)
 	s.lastOp = "NewFile-ok"
+	stat(c, fmt.Sprintf("NewFile err=%v fault=%v quotaReject=%v", err != nil, fired, expectReject))
 	if err != nil {
 		s.lastOp = "NewFile-failed"
 		if !fired && !expectReject {
@@ -268,7 +275,7 @@ func (s *sys) doNewFile(c *mc.SeqCtx, slot, size int) {
 	if expectReject {
 		c.FailP(prop, "quota/overcommit/NewFile", "NewFile(size %d) accepted although %d files / %d bytes are in use (limits %d / %d)", size, open, sum, s.cfg.maxFiles, s.cfg.maxBytes)
 	}
-	fs := &fileSt{f: f, hs: phs, hsLimit: size, id: id, content: make([]byte, size)}
+	fs := &fileSt{f: f, hs: phs, hsLimit: size + debugHSExtra, id: id, content: make([]byte, size)}
 	if phs != nil {
 		copy(fs.content, phs.vals)
 	}
@@ -296,6 +303,22 @@ func (s *sys) doWrite(c *mc.SeqCtx, slot, off, n int) {
 	s.lastOp = "WriteAt-ok"
 	if err != nil {
 		s.lastOp = "WriteAt-failed"
+	}
+	if statsOn {
+		frag := false
+		if info := rpool.VerifFileState(fs.f); info.HasBlock {
+			prev := uint32(0)
+			for _, sec := range info.Sectors {
+				if sec != 0 && prev != 0 && sec != prev+1 {
+					frag = true
+				}
+				prev = sec
+			}
+		}
+		stat(c, fmt.Sprintf("WriteAt err=%v partial=%v fault=%v quotaReject=%v fragmentedAfter=%v", err != nil, nw > 0 && nw < n, fired, quotaReject, frag))
+		if s.alloc != nil && s.freeSectors() == 0 {
+			stat(c, "device full after WriteAt")
+		}
 	}
 	if nw < 0 || nw > n {
 		c.FailP(prop, "write/bad-count", "WriteAt returned n=%d for %d bytes", nw, n)
@@ -340,6 +363,7 @@ func (s *sys) doTruncate(c *mc.SeqCtx, slot, size int) {
 	if err != nil {
 		s.lastOp = "Truncate-failed"
 	}
+	stat(c, fmt.Sprintf("Truncate err=%v fault=%v quotaReject=%v shrink=%v", err != nil, fired, quotaReject, size < old))
 	if err == nil {
 		if size < old {
 			fs.content = fs.content[:size:size]
@@ -373,6 +397,7 @@ func (s *sys) doClose(c *mc.SeqCtx, slot int) {
 	if err != nil {
 		s.lastOp = "Close-failed"
 	}
+	stat(c, fmt.Sprintf("Close err=%v fault=%v", err != nil, fired))
 	if err != nil && !fired {
 		c.FailP(prop, "spurious-error/Close", "Close failed without injected fault: %v", err)
 	}
@@ -440,10 +465,52 @@ func (s *sys) check(c *mc.SeqCtx) {
 			s.checkFile(c, fs)
 		}
 	}
-	if !c.Failed() {
+	if !c.Failed() && !debugNoInvariants {
 		s.checkConservation(c)
 	}
 }
+
+// Coverage counters (POOL_STATS=1 prints them after the run): which kinds of
+// outcomes the exploration actually reached. Diagnostic only; they influence
+// nothing.
+var (
+	statsOn = os.Getenv("POOL_STATS") != ""
+	statsMu sync.Mutex
+	stats   = map[string]int{}
+)
+
+func stat(c *mc.SeqCtx, name string) {
+	if statsOn && !c.Replaying {
+		statsMu.Lock()
+		stats[name]++
+		statsMu.Unlock()
+	}
+}
+
+func printStats() {
+	if !statsOn {
+		return
+	}
+	var names []string
+	for n := range stats {
+		names = append(names, n)
+	}
+	sort.Strings(names)
+	for _, n := range names {
+		fmt.Fprintf(os.Stderr, "POOL_STATS %-40s %d\n", n, stats[n])
+	}
+}
+
+// debugHSExtra (POOL_HS_EXTRA=n) makes the pattern hole source n bytes longer
+// than the file it is handed to, i.e. leaves the input domain assumed by this
+// harness (see props.json, assumptions). Experiment only; never set by ./check.
+var debugHSExtra, _ = strconv.Atoi(os.Getenv("POOL_HS_EXTRA"))
+
+// debugNoInvariants (POOL_NO_INVARIANTS=1) switches the structural
+// invariants off so that the detection power of the contents oracle and of
+// the destructive close-all oracle can be assessed on their own. Never set by
+// ./check.
+var debugNoInvariants = os.Getenv("POOL_NO_INVARIANTS") != ""
 
 func (s *sys) isData(fs *fileSt, o int) bool {
 	b := fs.content[o]
@@ -534,7 +601,7 @@ func (s *sys) checkFile(c *mc.SeqCtx, fs *fileSt) {
 			return
 		default:
 			if int(r) < off || int(r) >= size || int(r) > nextData {
-				s.fail(c, "region/data-skipped", "file#%d size %d: GetNextRegionOffset(%d, Data) = %d, next data byte is at %d", fs.id, size, off, r, nextData)
+				s.fail(c, "region/data-skipped", "file#%d size %d: GetNextRegionOffset(%d, Data) = %d; next data byte at or after %d is at %d (%d = none)", fs.id, size, off, r, off, nextData, size)
 				return
 			}
 		}
@@ -705,7 +772,9 @@ func (s *sys) final(c *mc.SeqCtx) {
 			s.files[slot] = nil
 		}
 	}
-	s.checkConservation(c)
+	if !debugNoInvariants {
+		s.checkConservation(c)
+	}
 	if c.Failed() {
 		return
 	}
@@ -743,7 +812,9 @@ func (s *sys) final(c *mc.SeqCtx) {
 		for _, f := range fsx {
 			f.Close()
 		}
-		s.checkConservation(c)
+		if !debugNoInvariants {
+			s.checkConservation(c)
+		}
 		if c.Failed() {
 			return
 		}
@@ -953,7 +1024,13 @@ func makeSeq(cfg *config) *mc.Seq {
 	return &mc.Seq{
 		Name:   cfg.name,
 		Props:  []string{prop},
-		New:    func(c *mc.SeqCtx) any { return newSys(cfg) },
+		New: func(c *mc.SeqCtx) any {
+			s := newSys(cfg)
+			for slot, size := range cfg.preopen {
+				s.doNewFile(c, slot, size)
+			}
+			return s
+		},
 		Ops:    ops,
 		Key:    func(st any) string { return st.(*sys).key() },
 		Check:  func(c *mc.SeqCtx, st any) { st.(*sys).check(c) },
